@@ -9,32 +9,123 @@ read / write / function fetch / call through lib raised, closing again returned 
 library's memory did not change through a closed lib, the process survived; before the close
 reads return the value last stored.
 """
+import ast
 import json
+import os
+import re
 
 from lib import vlib
+from lib.py2coq import Untranslatable
 from lib.vlib import cz, clist, cpair, cnat
 
 ID = "C37"
 
 CTYPES = [("signed char", -128, 127), ("short", -2 ** 15, 2 ** 15 - 1), ("int", -2 ** 31, 2 ** 31 - 1),
           ("long", -2 ** 63, 2 ** 63 - 1), ("unsigned char", 0, 255), ("unsigned short", 0, 2 ** 16 - 1),
-          ("unsigned int", 0, 2 ** 32 - 1), ("unsigned long", 0, 2 ** 64 - 1), ("long long", -2 ** 63, 2 ** 63 - 1)]
+          ("unsigned int", 0, 2 ** 32 - 1), ("unsigned long", 0, 2 ** 64 - 1), ("long long", -2 ** 63, 2 ** 63 - 1),
+          # enum-typed globals (accessible since /repo ec6f466), a pointer-typed and a struct-typed global: all are
+          # integer-valued for the model (enumerator value / address / the struct's only field)
+          ("enum e0", 0, 2 ** 32 - 1), ("enum n0", -2 ** 31, 2 ** 31 - 1), ("int *", 0, 2 ** 64 - 1),
+          ("struct s0", -2 ** 31, 2 ** 31 - 1)]
+NEW_KINDS = CTYPES[-4:]
+
+
+# ---------------------------------------------------------------- regeneration of coq/C37/Gen.v
+
+GEN = os.path.join(vlib.COQ, "C37", "Gen.v")
+
+
+def _c_block_statements(path, header, guard):
+    """statements (token lists) of the block `if (<guard>) { ... }` inside the C function `header`"""
+    from props import c29
+    text = c29._strip_comments(open(path).read())
+    body = c29._function_body(text, header)
+    stmts = c29._Stmts(c29._tokens(body)).all()
+    blocks = [s for s in stmts if s[0] == "if" and "".join(s[1]) == guard]
+    if len(blocks) != 1:
+        raise Untranslatable("%s: expected exactly one `if (%s)` block" % (header, guard))
+    return stmts, blocks[0][2]
+
+
+def translate_close_paths(repo):
+    try:
+        # in-line: FFILibrary.__cffi_close__ in api.py
+        tree = ast.parse(open(os.path.join(repo, "src", "cffi", "api.py")).read())
+        fns = [n for n in ast.walk(tree) if isinstance(n, ast.FunctionDef) and n.name == "__cffi_close__"]
+        if len(fns) != 1:
+            raise Untranslatable("__cffi_close__ not found exactly once")
+        inline = []
+        for st in fns[0].body:
+            src = ast.unparse(st).replace(" ", "")
+            if src == "backendlib.close_lib()":
+                inline.append("CallCloseLib")
+            elif src == "self.__dict__.clear()":
+                inline.append("ClearDict")
+            elif isinstance(st, ast.Expr) and isinstance(st.value, ast.Constant):
+                continue                         # docstring
+            else:
+                raise Untranslatable("__cffi_close__: statement outside the subset: %s" % src)
+        # backend: dl_close_lib
+        _, blk = _c_block_statements(os.path.join(repo, "src", "c", "_cffi_backend.c"),
+                                     "static PyObject *dl_close_lib(DynLibObject *dlobj, PyObject *no_args)",
+                                     "dlobj->dl_handle!=NULL")
+        backend = []
+        for st in blk:
+            t = "".join(st[1]) if st[0] == "expr" else None
+            if t == "dlclose(dlobj->dl_handle)":
+                backend.append("DlClose")
+            elif t == "dlobj->dl_handle=NULL":
+                backend.append("SetHandleNull")
+            else:
+                raise Untranslatable("dl_close_lib: statement outside the subset: %r" % (st,))
+        # out-of-line: ffi_dlclose
+        allst, blk = _c_block_statements(os.path.join(repo, "src", "c", "cdlopen.c"),
+                                         "static PyObject *ffi_dlclose(PyObject *self, PyObject *args)",
+                                         "libhandle!=NULL")
+        if not any(s[0] == "expr" and "".join(s[1]) == "libhandle=lib->l_libhandle" for s in allst):
+            raise Untranslatable("ffi_dlclose: libhandle is not lib->l_libhandle")
+        ool = []
+        for st in blk:
+            if st[0] == "expr" and "".join(st[1]) == "lib->l_libhandle=NULL":
+                ool.append("SetHandleNull")
+            elif st[0] == "expr" and "".join(st[1]) == "PyDict_Clear(lib->l_dict)":
+                ool.append("ClearDict")
+            elif st[0] == "if" and "".join(st[1]) == "cdlopen_close(lib->l_libname,libhandle)<0" \
+                    and st[2] == [("return", ["NULL"])]:
+                ool.append("DlClose")
+            else:
+                raise Untranslatable("ffi_dlclose: statement outside the subset: %r" % (st,))
+    except (OSError, SyntaxError) as e:
+        raise Untranslatable(str(e))
+    head = open(GEN + ".snapshot").read().split("Definition inline_close")[0]
+    return head + ("Definition inline_close : list cstep := [ %s ].\n"
+                   "Definition backend_close_lib : list cstep := [ %s ].\n"
+                   "Definition ool_close : list cstep := [ %s ].\n"
+                   % ("; ".join(inline), "; ".join(backend), "; ".join(ool)))
+
+
+def regen(ctx):
+    from props import c35
+    c35.regen_file(ctx, GEN, translate_close_paths)
 
 
 def gen_desc(rng):
     nv = rng.choice([1, 2, 3, 4])
-    vs = [list(rng.choice(CTYPES)) for _ in range(nv)]
+    vs = [list(rng.choice(CTYPES if rng.random() < 0.5 else NEW_KINDS)) for _ in range(nv)]
+    if all(v[0].startswith("struct") for v in vs):
+        vs[0] = list(CTYPES[2])
     fns = []
+    nonstruct = [k for k, v in enumerate(vs) if not v[0].startswith("struct")]
     for _ in range(rng.choice([1, 2, 3, 5])):
-        fns.append([rng.choice(["get", "set"]), rng.randrange(nv)])
+        fns.append([rng.choice(["get", "set"]), rng.choice(nonstruct)])
     consts = [rng.choice([0, 1, -1, 42, 2 ** 31, -2 ** 31 - 1, 2 ** 63 - 1, rng.randrange(-1000, 1000)])
               for _ in range(rng.choice([1, 2, 3]))]
     return dict(vars=vs, fns=fns, consts=consts)
 
 
-def rand_val(rng, lo, hi):
+def rand_val(rng, lo, hi, wraps=False):
     k = rng.random()
-    if k < 0.15:
+    if k < 0.15 and not wraps:          # (a pointer is written through ffi.cast, which wraps instead of refusing)
         return rng.choice([lo - 1, hi + 1, lo - rng.randrange(1, 1000), hi + rng.randrange(1, 1000)])
     if k < 0.4:
         return rng.choice([lo, hi, 0, 1, lo + 1, hi - 1])
@@ -68,13 +159,13 @@ def gen_history(rng, desc, desc_id):
         elif kind == "write":
             v = nv + rng.randrange(2) if undecl else rng.randrange(nv)
             lo, hi = desc["vars"][v][1:] if v < nv else (-5, 5)
-            ops.append(["write", l, v, rand_val(rng, lo, hi)])
+            ops.append(["write", l, v, rand_val(rng, lo, hi, v < nv and desc["vars"][v][0].endswith("*"))])
         elif kind == "fetch":
             ops.append(["fetch", l, nf + rng.randrange(2) if undecl else rng.randrange(nf)])
         elif kind == "call":
             f = nf + rng.randrange(2) if undecl else rng.randrange(nf)
             lo, hi = desc["vars"][desc["fns"][f][1]][1:] if f < nf else (-5, 5)
-            ops.append(["call", l, f, rand_val(rng, lo, hi)])
+            ops.append(["call", l, f, rand_val(rng, lo, hi, f < nf and desc["vars"][desc["fns"][f][1]][0].endswith("*"))])
         else:
             ops.append(["const", l, nc + rng.randrange(2) if undecl else rng.randrange(nc)])
     return dict(desc_id=desc_id, desc=desc, m0=m0, modes=modes, ops=ops, fresh_ffi=rng.random() < 0.2)
